@@ -253,7 +253,7 @@ PROPS["C06"] = dict(
     pkg="c06", level="exploration",
     rule=("a complete wallet (four default scopes x accounts 0,1, external and change addresses) gets a generated history through the model backend: confirmed and unconfirmed receipts on every "
           "address type, a coinbase paying the wallet brought to 98-102 confirmations, spends by the wallet itself and by another spender of the same keys (mined or unconfirmed), reorgs of depth 1-2, "
-          "LockOutpoint/UnlockOutpoint, LeaseOutput/ReleaseOutput with two identifiers; then 1-6 requests (12 thorough): CreateSimpleTx (dry run or signed; optionally WithCustomSelectUtxos), SendOutputs, "
+          "LockOutpoint/UnlockOutpoint, LeaseOutput/ReleaseOutput with two identifiers and 60/120-minute leases that a harness-owned store clock lets expire (1-600 minute steps, incl. exactly at the expiry); then 1-6 requests (12 thorough): CreateSimpleTx (dry run or signed; optionally WithCustomSelectUtxos), SendOutputs, "
           "SendOutputsWithInput (explicit inputs drawn from eligible, ineligible and foreign outpoints, sometimes with a duplicate), FundPsbt; scope nil or one of four, account 0/1, minconf "
           "0,1,2,3,99,100,101, fee rate 1000-500000 sat/kvB, largest/random selection, 1-5 outputs to P2PKH/P2SH/P2WPKH/P2WSH/P2TR, sometimes overspending. For every successful result each input must be "
           "in the harness ledger's eligible set for that request, used once, not an input of an earlier published transaction; signed results are verified input by input with txscript.NewEngine under "
